@@ -262,7 +262,7 @@ class PremadeBuilder(object):
     model["trusts"] = []
     model["dominances"] = []
     if (param == "all_vertices" and structure in (None, "explicit") and
-        kind != "linear" and s.chance(0.25)):
+        kind != "linear" and s.chance(0.4)):
       names = [f["name"] for f in feats]
       # Lattice dimensions are increasing for every constrained feature
       # (decreasing ones are flipped by their calibrator).
@@ -279,7 +279,7 @@ class PremadeBuilder(object):
         })
       if len(mains) >= 2 and s.chance(0.5):
         model["dominances"] = _gen_dominances(s.sub("dom"), mains)
-    if kind == "linear" and s.chance(0.4):
+    if kind == "linear" and s.chance(0.5):
       # Linear dominance needs both weights increasing: numeric features of
       # either direction and ordered categoricals all map to increasing.
       mains = [f["name"] for f in feats
